@@ -1,6 +1,7 @@
 package c07
 
 import (
+	"crypto/sha256"
 	"fmt"
 	"os"
 	"path/filepath"
@@ -22,6 +23,7 @@ type caseB struct {
 	caseA
 	V2     bool   `json:"v2"`
 	MaxStr string `json:"max_str,omitempty"` // raw max-keys value (overrides Max when set)
+	Upload bool   `json:"upload,omitempty"`  // a multipart upload with one staged part is in progress in the bucket
 }
 
 var (
@@ -77,6 +79,23 @@ func runB(c caseB) error {
 			return fmt.Errorf("SETUP: put directory object %q: %v", k, r)
 		}
 		etags[k] = s3c.ETag(r.Header.Get("ETag"))
+	}
+	if c.Upload {
+		r := cl.MustCall("POST", "/"+bkt+"/upload-in-progress", s3c.Q("uploads", ""), nil, nil)
+		var ini s3c.InitiateResult
+		if !r.OK() || s3c.ParseXML(r, &ini) != nil {
+			return fmt.Errorf("SETUP: create upload: %v", r)
+		}
+		if r := cl.MustCall("PUT", "/"+bkt+"/upload-in-progress", s3c.Q("partNumber", "1", "uploadId", ini.UploadId), nil, []byte("staged part")); !r.OK() {
+			return fmt.Errorf("SETUP: upload part: %v", r)
+		}
+		if strings.HasPrefix(c.Prefix, tmpDir+"/multipart/ab") {
+			// aim the prefix at the real staging directory of that upload
+			c.Prefix = fmt.Sprintf("%s/multipart/%x/", tmpDir, sha256.Sum256([]byte("upload-in-progress")))
+			if c.Max%2 == 0 {
+				c.Prefix += ini.UploadId + "/"
+			}
+		}
 	}
 	maxStr := c.MaxStr
 	if maxStr == "" {
@@ -173,6 +192,8 @@ func TestC07B(t *testing.T) {
 	}
 	ev.Check(t, "C07B", func(t *rapid.T) {
 		c := caseB{caseA: genCaseA(t)}
+		// bookkeeping entries cannot be planted through the API; what can be is an upload in progress with one part
+		c.Upload = len(c.Tmp) > 0
 		c.Tmp = nil
 		c.V2 = rapid.Bool().Draw(t, "v2")
 		if rapid.IntRange(0, 9).Draw(t, "max_raw") == 0 {
